@@ -22,6 +22,10 @@ impl TraceRoot for Vm {
     self.module_cache.trace();
     self.capture_stub.trace();
 
+    // a cached class is compared by address so it must stay alive
+    // for as long as a call site remembers it
+    self.inline_cache.iter().for_each(|cache| cache.trace());
+
     for stub in &self.native_fun_stubs {
       stub.trace();
     }
@@ -35,6 +39,10 @@ impl TraceRoot for Vm {
     self.packages.trace_debug(log);
     self.module_cache.trace_debug(log);
     self.capture_stub.trace_debug(log);
+    self
+      .inline_cache
+      .iter()
+      .for_each(|cache| cache.trace_debug(log));
 
     for stub in &self.native_fun_stubs {
       stub.trace_debug(log);
